@@ -17,7 +17,7 @@ META = {
                   "running while its parent is parked at the write.",
     "technique": "Coq inductive invariant over an unbounded-thread transition system; generated instruction program tied by reflexivity; deterministic-scheduler replay of real threads against the extracted model",
     "gen": ["sendq"],
-    "shapes": ["protocol.Connection._send"],
+    "shapes": ["protocol.Connection._send", "sendq.*"],
     "models": ["sendq"],
     "model_files": ["SendQ"],
     "assumptions": ["GIL: each source line touching the queue or the lock is atomic", "threading.Lock is not re-entrant"],
@@ -282,7 +282,9 @@ def run(ctx):
              ([1, 1, 1], {}, 2, 500 if ctx.quick else 40000),
              ([1, 1], {0: 900}, 3, 500 if ctx.quick else 30000),
              ([2, 2], {}, 2 if ctx.quick else 3, 300 if ctx.quick else 60000),
-             ([2, 1], {100: 901}, 2, 200 if ctx.quick else 20000)]
+             ([2, 1], {100: 901}, 2, 200 if ctx.quick else 20000),
+             ([3, 1], {}, 2, 300 if ctx.quick else 30000),
+             ([3, 3], {}, 1, 200 if ctx.quick else 30000)]
     exhaustive = {}
     for totals, spawn, pb, limit in plans:
         batch = []
